@@ -569,9 +569,32 @@ func c18IsAnc(parents []int, a, d int) bool {
 	}
 }
 
+// c18GenDense samples a small closed space densely: 1..4 authorities, the tree 0 <- 1 <- 2 with 3 a
+// sibling of 1, target 1, and 0..5 entries over a small alphabet, so that repetitions, equivocations
+// and valid/invalid pairs of one id collide all the time.
+func c18GenDense(r *vhRng) string {
+	n := 1 + r.Intn(4)
+	k := r.Intn(6)
+	ids := []string{"v0", "v1", "v2", "v3", "x0"}
+	votes := []string{"b1:1", "b1:1", "b2:2", "b3:1", "b0:0", "b9:1"}
+	sigs := []string{"ok", "ok", "ok", "bad0", "bad1", "z", "r2", "ob2:2"}
+	es := make([]string, k)
+	for i := range es {
+		id := ids[r.Intn(len(ids))]
+		if r.Chance(3, 4) {
+			id = ids[r.Intn(n)]
+		}
+		es[i] = id + " " + votes[r.Intn(len(votes))] + " " + sigs[r.Intn(len(sigs))]
+	}
+	return fmt.Sprintf("n=%d set=0 tree=0,1,0 fin=0 has=0 f=0 R=1 S=0 T=b1:1 lm=0|%s", n, strings.Join(es, ";"))
+}
+
 func c18Gen(r *vhRng) string {
 	if r.Chance(1, 100) {
 		return fmt.Sprintf("thr %d", r.Intn(200))
+	}
+	if r.Chance(1, 4) {
+		return c18GenDense(r)
 	}
 	n := r.Pick(1, 2, 3, 3, 4, 4, 4, 5, 6, 6, 7, 8, 9, 9, 10)
 	if r.Chance(1, 60) {
